@@ -170,3 +170,50 @@ Proof.
   split; [intros z Hz5; apply P; apply P5 in Hz5; apply filter_In in Hz5; exact (proj1 Hz5)|].
   split; [rewrite T5; exact T|]. split; [lia|]. split; [lia|exact Htop].
 Qed.
+
+(* ---- RET with its result in any operand that is not the temp register: the operand is fetched
+        (popped when it is on the stack), then the frame is left as above ---- *)
+Lemma call_leave_gen rr v mid m1 m4 m4' r instr a b0 ip fr ser x y K A k1 k2 a1 a2 :
+  at_ip v r mid instr ->
+  decode instr = {| f_op := RET; f_k0 := K; f_k1 := k1; f_k2 := k2; f_a0 := A; f_a1 := a1; f_a2 := a2 |} ->
+  fetch (St v mid m4) mid K A = Good (St v mid m4', y) ->
+  in_frame a b0 ip fr ser x m1 m4' -> 0 <= a <= 1 -> 0 <= b0 -> m_sp m4' = b0 + a + 1 -> m_sp m4' <= zlen (m_stack m4') ->
+  not_fun y ->
+  exists m5, step (St v mid m4) r rr = SNext (St v mid m5) (with_ip r ip) /\
+    m_fp m5 = m_fp m1 /\ m_clos m5 = m_clos m1 /\ m_serials m5 = m_serials m1 /\ incl (m_cap m5) (m_cap m1) /\
+    firstn (Z.to_nat b0) (m_stack m5) = firstn (Z.to_nat b0) (m_stack m1) /\
+    m_sp m5 = b0 + 1 /\ m_sp m5 <= zlen (m_stack m5) /\ znth (m_stack m5) b0 = Some y.
+Proof.
+  intros Hat Hd Hf (F & C & S & P & T & X0 & X1) Ha Hb0 Hsp Hle Hnf.
+  rewrite (step_ret v mid m4 r rr instr _ _ _ _ _ _ Hat Hd). rewrite Hf. cbn [obind].
+  assert (Epv : (match y with
+                 | VFun morph fid =>
+                     match assoc_get (v_frames (St v mid m4')) fid with
+                     | Some fr0 => let (va, owned) := frame_content (St v mid m4') fr0 in
+                                   let (vb, nfid) := add_frame va owned in Good (vb, VFun morph nfid)
+                     | None => Good (St v mid m4', y)
+                     end
+                 | _ => Good (St v mid m4', y)
+                 end) = Good (St v mid m4', y)).
+  { destruct y; try reflexivity. contradiction. }
+  rewrite Epv. cbn [obind]. rewrite St_get. cbn [obind]. rewrite F.
+  assert (Hz : (zlen (m_fp m1 ++ [b0; b0 + a]) - 1 <? 0) = false).
+  { apply Z.ltb_ge. unfold zlen. rewrite app_length. cbn [List.length]. lia. }
+  rewrite Hz.
+  destruct (fp_at_app2 m4' (m_fp m1) b0 (b0 + a) F) as [F2 F1].
+  rewrite F1. cbn [obind]. unfold stack_get. rewrite X1. cbn [req obind].
+  unfold mPopFrame. rewrite F2. cbn [obind]. cbn [m_clos m_sp m_fp m_stack m_serials m_cap m_gen].
+  rewrite C. assert (Hzc : (zlen (m_clos m1 ++ [fr]) <? 1) = false).
+  { apply Z.ltb_ge. unfold zlen. rewrite app_length. cbn [List.length]. lia. }
+  rewrite Hzc. rewrite St_St.
+  rewrite F, S, drop_last_app2', drop_last_app1', drop_last_app1', last_opt_app1.
+  set (m5' := {| m_sp := b0; m_fp := m_fp m1; m_clos := m_clos m1; m_stack := m_stack m4'; m_serials := m_serials m1;
+                 m_cap := filter (fun x0 => negb (x0 =? ser)) (m_cap m4'); m_gen := m_gen m4' |}).
+  assert (Hsp5 : 0 <= m_sp m5' <= zlen (m_stack m5')) by (cbn [m5' m_sp m_stack]; lia).
+  destruct (vPush_St v mid m5' y Hsp5) as [m5 [Hpush [Hm5 [Hsp5' Htop]]]].
+  rewrite Hpush. cbn [obind lift next]. exists m5. split; [reflexivity|].
+  destruct Hm5 as (F5 & C5 & S5 & P5 & T5 & B5). cbn [m5' m_sp m_fp m_clos m_serials m_cap m_stack] in *.
+  split; [exact F5|]. split; [exact C5|]. split; [exact S5|].
+  split; [intros z Hz5; apply P; apply P5 in Hz5; apply filter_In in Hz5; exact (proj1 Hz5)|].
+  split; [rewrite T5; exact T|]. split; [lia|]. split; [lia|exact Htop].
+Qed.
